@@ -6,6 +6,7 @@ mod framework;
 mod panics;
 mod prng;
 mod session;
+mod tracesub;
 mod wire;
 
 use framework::{Options, ReplayFile, Tier};
